@@ -43,7 +43,7 @@ def add_equal(
     """
     input_labels = list(input_labels)
     bits = bin(num)[2:].zfill(len(input_labels))[::-1]
-    if len(bits) > len(input_labels):
+    if num < 0 or len(bits) > len(input_labels):
         new_label = generate_random_label(circuit)
         circuit.emplace_gate(
             label=new_label,
